@@ -35,7 +35,12 @@ def run_witness(w):
             args.append(f"contains={cf}")
         if w.get("sweep"):
             args.append(f"sweep_widths={w['sweep'][0]}:{w['sweep'][1]}")
-        p = subprocess.run(args, capture_output=True, text=True, timeout=300)
+        try:
+            p = subprocess.run(args, capture_output=True, text=True, timeout=w.get("time_limit", 300))
+        except subprocess.TimeoutExpired:
+            if w.get("time_limit"):
+                return True, dict(violated=True, runs=[dict(verdict="violated", detail=f"the formatter did not finish within {w['time_limit']} s on a {len(w['src'])}-byte input", output="")])
+            raise
         try:
             j = json.loads(p.stdout)
         except Exception:
